@@ -37,6 +37,13 @@ def run(chk, repo):
     widths(chk, repo)
     descs(chk, repo)
     closures(chk, repo)
+    # a constant assigned by the program reaches the frame as the Python
+    # path writes it (shared with C01)
+    from ..dsl import Ctx as _Dsl
+    from .c01 import store_immediate
+    chk.doc("R01.7", "immediate stores only for signed 32-bit constants "
+                     "(shared with C01)")
+    store_immediate(chk, repo, _Dsl(repo))
     # where a terminal's bytes are: the allocation (shared with C18) and
     # the bit positions of its PDO entries (shared with C17)
     from . import c18, c17
@@ -372,7 +379,52 @@ def descs(chk, repo):
            "position_offset = {OUT: 0, IN: 0, None: 0}")
 
 
+def descriptor_state(chk, repo):
+    """R19.4: a PacketVar is one object for every device and every program
+    it is used in.  What it keeps beyond its declaration are the two
+    accessor closures of the Python path (`set` / `get`, analysed below:
+    they capture the position only, for the device they were made for).
+    Anything else remembered on it - a Memory object of the program path,
+    say, whose format a bit store rewrites - is shared by all later
+    uses."""
+    pv = repo.cls(C + "PacketVar")
+    bad = []
+    n = 0
+    for name, f in pv.methods.items():
+        if not isinstance(f, FUNC) or name in ("__init__", "__set_name__"):
+            continue
+        n += 1
+        for x in walk_no_nested(f):
+            t = None
+            if isinstance(x, ast.Attribute) and isinstance(
+                    x.ctx, (ast.Store, ast.Del)):
+                t = x
+            elif isinstance(x, ast.Subscript) and isinstance(
+                    x.ctx, (ast.Store, ast.Del)):
+                t = x.value
+            root = t
+            while isinstance(root, (ast.Attribute, ast.Subscript)):
+                root = root.value
+            if t is None or not (isinstance(root, ast.Name)
+                                 and root.id == "self"):
+                continue
+            first = t
+            while isinstance(first, (ast.Attribute, ast.Subscript)) and not (
+                    isinstance(first, ast.Attribute) and isinstance(
+                        first.value, ast.Name)):
+                first = first.value
+            attr = first.attr if isinstance(first, ast.Attribute) else "?"
+            if (name, attr) not in (("set", "set"), ("get", "get")):
+                bad.append((x, f"PacketVar.{name} stores `{unparse(x)[:40]}`"))
+    chk.ob("R19.4", pv.qualname, "the descriptor keeps nothing but its two "
+           "accessor closures", not bad, bad[0][0] if bad else pv.node,
+           (bad[0][1] + ": state remembered on the descriptor is shared by "
+            "every device and every later access") if bad else
+           f"{n} methods")
+
+
 def closures(chk, repo):
+    descriptor_state(chk, repo)
     """R19.4: the slow-path accessors of PacketVar, by abstract execution of
     get() and set() on an abstract device and sync group whose frame is a
     real bytearray: first access, access through the accessor cached on the
@@ -398,6 +450,7 @@ def closures(chk, repo):
     for size, values in (("H", (0x1234, 0xfedc)), ("i", (-5, 70000)),
                          ("B", (7, 200)), ("Q", (1 << 40, 3)),
                          (0, (True, False)), (5, (True, False)),
+                         ("f", (2.5, -0.75)), ("d", (1234.0625, 0.5)),
                          ("4s", (b"abcd", b"wx\x00\x00")),
                          ("6p", (b"ab\x00", b"xyz"))):
         for base, pos in ((20, 3), (8, 0)):
